@@ -409,4 +409,45 @@ theorem refractiveValid_sorted (es ns ints : List ℝ) (h : refractiveValid es n
     | cons a l => simp
   · simp only [CerMat.ofLists, List.size_toArray]; exact hlen
 
+/-- the Cerenkov angle integral (`CerenkovParams`: running trapezoid sum of 1/n² over the energy
+    grid) never decreases along a non-decreasing energy grid, whatever the refractive indices:
+    every entry is at least the running value it started from, and the list is ordered -/
+theorem angleIntegralFrom_monotone (acc : ℝ) (es ns : List ℝ) (h : es.Pairwise (· ≤ ·)) :
+    (∀ x ∈ angleIntegralFrom acc es ns, acc ≤ x) ∧
+    (angleIntegralFrom acc es ns).Pairwise (· ≤ ·) := by
+  fun_induction angleIntegralFrom acc es ns with
+  | case1 acc e0 e1 es n0 n1 ns nxt ih =>
+    have h01 : e0 ≤ e1 := (List.pairwise_cons.mp h).1 e1 (by simp)
+    obtain ⟨ih1, ih2⟩ := ih (List.pairwise_cons.mp h).2
+    have hstep : acc ≤ nxt := by
+      simp only [nxt, NumR.hadd_real, NumR.hmul_real, NumR.hsub_real, NumR.hdiv_real,
+        NumR.sq_real, NumR.lit1]
+      have hhalf : (@OfScientific.ofScientific ℝ Num.instOfScientific 5 true 1) = 1 / 2 := by
+        show (OfScientific.ofScientific 5 true 1 : ℝ) = 1 / 2
+        norm_num
+      rw [hhalf]
+      have a0 : 0 ≤ 1 / (n0 * n0) := div_nonneg zero_le_one (mul_self_nonneg n0)
+      have a1 : 0 ≤ 1 / (n1 * n1) := div_nonneg zero_le_one (mul_self_nonneg n1)
+      have : 0 ≤ 1 / 2 * (e1 - e0) * (1 / (n0 * n0) + 1 / (n1 * n1)) :=
+        mul_nonneg (mul_nonneg (by norm_num) (by linarith)) (by linarith)
+      linarith
+    refine ⟨fun x hx => ?_, List.Pairwise.cons ih1 ih2⟩
+    rcases List.mem_cons.mp hx with rfl | hx'
+    · exact hstep
+    · exact le_trans hstep (ih1 x hx')
+  | case2 => exact ⟨fun x hx => by simp at hx, List.Pairwise.nil⟩
+
+/-- ★ hence the tabulated integral starts at 0 and is non-decreasing, so the sampled photon
+    number density `dN/dx ∝ ∫ (1 − 1/(n β)²) dE` is built from an ordered table -/
+theorem angleIntegral_monotone (es ns : List ℝ) (h : es.Pairwise (· ≤ ·)) :
+    (angleIntegral es ns).Pairwise (· ≤ ·) ∧ ∀ x ∈ angleIntegral es ns, 0 ≤ x := by
+  have := angleIntegralFrom_monotone (@OfNat.ofNat ℝ 0 (Num.instOfNat 0)) es ns h
+  have h0 : (@OfNat.ofNat ℝ 0 (Num.instOfNat 0)) = (0 : ℝ) := NumR.lit0
+  unfold angleIntegral
+  refine ⟨List.Pairwise.cons (fun x hx => ?_) this.2, fun x hx => ?_⟩
+  · exact this.1 x hx
+  · rcases List.mem_cons.mp hx with rfl | hx'
+    · exact le_of_eq h0.symm
+    · exact le_trans (le_of_eq h0.symm) (this.1 x hx')
+
 end CelerVerif.Optical
